@@ -119,10 +119,10 @@ func randomLarger(c *vf.Check, id string, keys []string, n int) {
 // C01: compiled generators yield exactly the source's coroutine sequence.
 func C01(c *vf.Check) {
 	keys := []string{"ok", "cur", "panic"}
-	runFam(c, famSpec{id: "C01", fam: "ctl", name: "F_ctl", sizeQ: "3", sizeT: "4", tapeQ: "3", tapeT: "2", callsQ: 5, callsT: 6, keys: keys, lazyT: true,
+	runFam(c, famSpec{id: "C01", fam: "ctl", name: "F_ctl", sizeQ: "3", sizeT: "3", tapeQ: "3", tapeT: "4", callsQ: 5, callsT: 6, keys: keys, lazyT: true,
 		rule:   "F_ctl: every generator program of the control-flow family (eff, inc, yield of literal/variable, if/else, tagged switch, block, for with optional yielding init / trivial or yielding post / optional condition, break, continue, return, return <expr>) up to MaxSize statements x every tape up to TapeLen, MaxCalls advances (prefixes = every finite prefix / truncation); F_lit: nested function literals (an immediately invoked closure, a generator literal nested in the generator and capturing its variables, delegated to) in the control alphabet; F_jump: only what interacts with break/continue (loops with and without yielding post, switch, if) one size level deeper; plus programs of size 5..12 derived from seeded choice tapes by the same grammar (MC_Rnd.tla); non-trivial = distinct (program,tape) whose run yields at least once or performs an effect in the first advance",
 		assume: []string{"element type int, two int parameters; programs the compiler rejects or whose output does not build are C11's business and are not compared here"}})
-	runFam(c, famSpec{id: "C01", fam: "lit", name: "F_lit", sizeQ: "3", sizeT: "4", tapeQ: "2", tapeT: "2", callsQ: 6, callsT: 7, keys: keys, rule: ""})
+	runFam(c, famSpec{id: "C01", fam: "lit", name: "F_lit", sizeQ: "3", sizeT: "3", tapeQ: "2", tapeT: "3", callsQ: 6, callsT: 7, keys: keys, rule: ""})
 	runFam(c, famSpec{id: "C01", fam: "jump", name: "F_jump", sizeQ: "4", sizeT: "5", tapeQ: "2", tapeT: "3", callsQ: 6, callsT: 7, keys: keys, lazyT: true, rule: ""})
 	// the same control-flow programs under every way of declaring a generator (method, generic function,
 	// function literal, literal nested in a literal): behaviour, not only compilation (C11)
